@@ -1742,7 +1742,7 @@ func concurrencyPhase(g *gen, so *searchOut, addV func(key, desc, line string), 
 		}
 	}
 	for i := 0; i < 2*nd; i++ {
-		k := 2 + g.r.Intn(4)
+		k := 3 + g.r.Intn(5)
 		ids := g.idSet(k, "lead0")
 		sigs, _ := g.honest(k, ids, g.point("hash"))
 		lines = append(lines, "recover "+strconv.Itoa(k)+" - "+interleave(ids, sigs))
@@ -1757,9 +1757,9 @@ func concurrencyPhase(g *gen, so *searchOut, addV func(key, desc, line string), 
 		l := l
 		seq[i] = hx.Guard(func() string { return execOp(l) })
 	}
-	workers, rounds := 8, 2
+	workers, rounds := 8, 6
 	if thorough {
-		workers, rounds = 16, 4
+		workers, rounds = 16, 8
 	}
 	var mu sync.Mutex
 	var wg sync.WaitGroup
@@ -1772,6 +1772,9 @@ func concurrencyPhase(g *gen, so *searchOut, addV func(key, desc, line string), 
 				for t := range lines {
 					i := (t*7 + w*3 + r) % len(lines)
 					l := lines[i]
+					if r > 1 && strings.HasPrefix(l, "dkg ") {
+						continue // the expensive lines twice, the cheap arithmetic ones every round
+					}
 					a := hx.Guard(func() string { return execOp(l) })
 					if a != seq[i] {
 						mu.Lock()
